@@ -605,6 +605,45 @@ class Gen:
             zd = self.add_def(name, "label", root, main, ln, 0)
             zd.tagline = (main, ln)
             self.pending_uses.append((main, settle_slot, root, True, None, ("settle", zd)))
+        # the last thing in the program: a label block whose code uses outer (top-level) names and ends with a LARGE
+        # untaken block that defines labels with those very names (and more): unassembled code that creates more symbols
+        # than everything after it, at the end of the last scope -- whatever the analysed run does with the symbols of
+        # that block (slots of removed symbols are handed out again), none of them may capture the uses above it
+        outer = [d for d in root.defs.values() if d.file == main and d.kind in ("label", "const", "var") and d.assembled
+                 and d.name not in ("",) and not d.name.startswith("z")]
+        if outer and rng.random() < 0.45:
+            tname = p.fresh_name(rng, "t")
+            ln = self.emit(main, "%s: {" % tname)
+            td = self.add_def(tname, "scope", root, main, ln, 0)
+            tsc = Scope("label", root, main, td)
+            td.block = tsc
+            ln2 = self.emit(main, "nop")
+            td.tagline = (main, ln2)
+            picks = rng.sample(outer, min(len(outer), rng.randrange(1, 4)))
+            for d in picks:
+                ln3 = self.emit(main, None)
+                self.pending_uses.append((main, ln3, tsc, True, None, ("local", d)))
+            if rng.random() < 0.5:
+                self.emit(main, ".if 0 {")
+                closing = ["}"]
+            else:
+                self.emit(main, ".if 1 {")
+                self.emit(main, "nop")
+                self.emit(main, "} else {")
+                closing = ["}"]
+            dead_scope = Scope("dead", tsc, main)
+            names = [d.name for d in picks] + [p.fresh_name(rng) for _ in range(rng.randrange(5, 9))]
+            rng.shuffle(names)
+            if rng.random() < 0.7:   # the clashing name first: it is the one that lands in the lowest free slot
+                names.sort(key=lambda n: 0 if n in [d.name for d in picks] else 1)
+            for nm in names:
+                ln4 = self.emit(main, "%s: nop" % nm)
+                self.add_def(nm, "label", dead_scope, main, ln4, 0, assembled=False)
+                tsc.dead_names.add(nm)
+            for c in closing:
+                self.emit(main, c)
+            self.emit(main, "}")
+            p.features.add("large_untaken_block_at_end")
         # fill the use statements now that every definition exists
         for (file, ln, scope, assembled, ctx, special) in self.pending_uses:
             self.fill_use(file, ln, scope, assembled, ctx, special)
@@ -730,6 +769,9 @@ def ground_truth(p, asm):
             if last.role == "param_uninvoked":
                 continue
             ds = [d for d in p.defs if d.name == last.text and d.kind != "param"]
+            if len(ds) > 1:
+                # definitions of that name in OTHER unassembled regions do not exist for this one
+                ds = [d for d in ds if d.assembled]
             if len(ds) == 1:
                 last.truth = ds[0]
             else:
